@@ -12,7 +12,7 @@ from .report import AnalysisError
 
 
 class Rig:
-    def __init__(self, it, cls, height, width, init_kwargs=None, screen=None, encoding="utf-8"):
+    def __init__(self, it, cls, height, width, init_kwargs=None, screen=None, encoding="utf-8", real_cbreak=False):
         self.it = it
         self.cls = cls
         self.screen = screen or termmodel.Screen(height, width)
@@ -22,12 +22,21 @@ class Rig:
         self.read_errors = 0       # reads that fail with OSError before the next character is delivered
         self.on_read = None        # hook called at every read (used to inject a nested call)
         self.reads = 0
+        self.writes = 0
+        self.crash_at_write = None # the k-th write raises KeyboardInterrupt instead of reaching the terminal
         self.extra = []            # bytes handed to extra_bytes_callback
         self.log = []
         scr = self.screen
 
         def write(args, kw):
             (data,) = args
+            if any(q.endswith(".__exit__") for q in it.folder.stack):
+                scr.feed(data)
+                return None
+            self.writes += 1
+            if self.crash_at_write is not None and self.writes == self.crash_at_write:
+                self.crash_at_write = None
+                raise FoldedRaise(ExcName("KeyboardInterrupt"), "arrives at a write to the terminal")
             self.log.append(data)
             scr.feed(data)
             return None
@@ -95,6 +104,8 @@ class Rig:
                              getencoding=other),
             "Cbreak": NativeFunc(lambda a, k: NativeCM(None, None, "Cbreak")),
         })
+        if real_cbreak:
+            it.folder.overrides["window"].pop("Cbreak", None)
         kw = dict(init_kwargs or {})
         kw.setdefault("out_stream", self.out_stream)
         if cls == "CursorAwareWindow":
